@@ -59,7 +59,7 @@ def _worker(args):
     ev = Ev()
     styles = st.fixed_dictionaries({"indent": st.sampled_from([1, 2, 3, 4, 5, 6, 7, 8, "tab"]), "spacing": st.integers(0, 2), "blank": st.sampled_from([0, 0.1, 0.4]),
                                     "comment": st.sampled_from([0, 0.1, 0.4]), "trailing": st.sampled_from([0, 0.15]), "breaks": st.sampled_from([0, 0.1, 0.3])})
-    strat = st.tuples(P.programs(P.Profile(size=10)), st.sampled_from(["pile", "pile", "brace"]), styles, st.integers(0, 2 ** 30), st.booleans())
+    strat = st.tuples(P.programs(P.Profile(size=10, templates=False)), st.sampled_from(["pile", "pile", "brace"]), styles, st.integers(0, 2 ** 30), st.booleans())
 
     def evaluate(case, ev):
         pr, mode, style, rseed, rnd_indent = case
